@@ -107,7 +107,8 @@ U32 = [0, 1, 255, 256, 65535, 65536, 2 ** 31, 2 ** 32 - 1]
 MACS = [0, 1, 0x001122334455, 0x4c1fccec1773, 2 ** 24, 2 ** 47, 2 ** 48 - 1]
 LABELS = [0, 1, 3, 15, 16, 2 ** 20 - 1]
 V4 = [0, 1, 0x0b0b0b01, 0xc0a80001, 2 ** 31, 2 ** 32 - 1]
-V6 = [0, 1, 2 ** 32 - 1, 2 ** 32, (0x20010db8 << 96) | 1, (0xfe80 << 112) | 0x1234, 2 ** 127, 2 ** 128 - 1]
+V6 = [0, 1, 2 ** 32 - 1, 2 ** 32, (0x20010db8 << 96) | 1, (0xfe80 << 112) | 0x1234, 2 ** 127, 2 ** 128 - 1,
+      0xffff0a000001, 0x0a000001, (0x64ff9b << 104) | 0xc0000201]      # ::ffff:10.0.0.1, ::10.0.0.1 (IPv4 embedded), 64:ff9b::192.0.2.1
 IPS = [None] + [[4, v] for v in V4] + [[6, v] for v in V6]
 RDS = ['0:0', '1:1', '65535:4294967295', '65535:0', '100:65536', '64512:7',
        '0.0.0.0:0', '1.1.1.1:65535', '255.255.255.255:1', '172.16.0.1:5904',
